@@ -23,6 +23,7 @@ var c01Families = []family{
 	{`query($v1: Boolean!) { users { id friends @include(if: $v1) { id } } }`, []string{"v1"}},
 	{`mutation { a(x: 1) b(x: 2) c { id best { id } } }`, nil},
 	{`{ me { secret echo(s: "x") __typename } }`, nil},
+	{`{ me { boss { id } pet { __typename } } strict { boss { id } pet { __typename } } user(id: "7") { boss { id } } }`, nil},
 	{`query($v1: Boolean!) { me { best { id } boss { id age } friends { id best @include(if: $v1) { id } } pet { __typename } items { title owner { id } } } }`, []string{"v1"}},
 }
 
